@@ -78,6 +78,47 @@ def bit_of(conds):
     return None
 
 
+
+def input_frame(F, rep):
+    """BitMachine::input: the input frame has the padded width of the value (write_value writes the padded encoding into it),
+    and it exists exactly when that width is non-zero — the criterion exec uses (`read.is_empty() != source_ty.is_empty()`);
+    a zero-width product is not `unit`."""
+    f0 = F.fn(tmpl.BM + "input")
+    if f0 is None:
+        rep.anchor("C05.value", "BitMachine::input")
+        return
+    f = F.inlined(f0, tuple(tmpl.MACHINE_OPS) + ("padded_len", "compact_len", "bit_width", "is_empty", "is_unit", "is_of_type"))
+    from facts import Terms, calls_in
+    T = Terms(f)
+    nw = [cs for cs in f.calls() if cs.name == "new_write_frame"]
+    if len(nw) != 1:
+        rep.anchor("C05.value", "BitMachine::input: one new_write_frame")
+        return
+    names = {c[2] for c in calls_in(T.operand(nw[0].args[1]))}
+    if names & {"compact_len", "iter_compact"} or not names & {"padded_len", "bit_width"}:
+        rep.violation("C05.value", "input:frame-size", "BitMachine::input sizes the input frame by %s; write_value writes the padded encoding, so the frame "
+                      "needs the type's bit width (padded_len): with sum padding the value overruns the frame and later frames overlap it"
+                      % (sorted(names) or "an unrecognised expression"), nw[0].where())
+    else:
+        rep.ok("C05.value", "input: frame of padded_len() cells", None)
+    # the guard that decides whether a frame is pushed at all
+    idom = f.idom()
+    x, guard = nw[0].bb, None
+    while x in idom and idom[x] != x and guard is None:
+        x = idom[x]
+        t = f.blocks[x]["t"]
+        if t["k"] == "switch":
+            gn = {c[2] for c in calls_in(T.operand(t["discr"]))}
+            if gn & {"is_empty", "is_unit", "padded_len", "bit_width", "compact_len"}:
+                guard = gn
+    if guard is None:
+        rep.note("BitMachine::input pushes the input frame unconditionally or under an unrecognised guard: not decided")
+    elif "is_unit" in guard:
+        rep.violation("C05.value", "input:guard", "BitMachine::input decides whether to push the input frame with is_unit(): a value of a zero-width "
+                      "non-unit type (1 x 1) then gets an empty frame, and exec, which tests the source type's width, rejects the input", nw[0].where())
+    else:
+        rep.ok("C05.value", "input: frame pushed iff the value has non-zero width", sorted(guard))
+
 def run(ctx, rep):
     F = ctx.facts("full")
     rep.rule("C05.template", "each interpreter arm = Bit Machine template of its combinator (ops in order, width provenance)")
@@ -98,6 +139,7 @@ def run(ctx, rep):
         else:
             rep.violation("C05.value", "write_value", "BitMachine::write_value writes %s: frames are sized by the type's bit width (the padded layout), so a witness, word "
                           "or input whose type has sum padding would be laid out wrongly" % (sorted(forms) or "no value iterator"), wv.where())
+    input_frame(F, rep)
     try:
         r = tmpl.extract(F)
     except tmpl.TemplateError as e:
